@@ -41,7 +41,10 @@ ASSUMPTIONS = [
     "other combinations (empty vs non-empty slave set without master, two different non-empty slave sets, a corner "
     "carrying both master and slave of one pair) are counted, not judged, except that they must not depend on the "
     "insertion order",
-    "a patch name is never master in one pair and slave in another; merge_patches is called before assemble()",
+    "a patch name is never master in one pair and slave in another; in the first run every pair is declared before "
+    "assemble(); the second run follows a drawn history (pairs / operations declared after a first assemble(), then "
+    "clear()+assemble() or backport(); or a patch_list.is_slave() query before the pairs) and must give the partition "
+    "of the final declaration set",
     "file cell: every operation is chopped count=1 in all directions so that write() succeeds",
 ]
 
@@ -64,6 +67,22 @@ def _internal_faces(dims, cells) -> List[Tuple[int, int, int]]:
                 if d in sel:
                     out.append((c, d, a))
     return out
+
+
+def _history(draw, k: int, npairs: int) -> Dict[str, Any]:
+    """Order of API calls for the second assembly of a case: which pairs / operations are declared only after a first
+    assemble(), and how the mesh is then re-assembled.  The declared model (final set of pairs and operations) is the same."""
+    kind = draw(st.sampled_from(["none", "none", "late-pairs", "late-pairs", "late-pairs+ops", "query-first"]))
+    if kind == "none":
+        return {"kind": kind}
+    if kind == "query-first":
+        return {"kind": kind, "query": draw(st.sampled_from(POOL))}
+    return {
+        "kind": kind,
+        "pairs_before": draw(st.integers(0, max(0, npairs - 1))),
+        "ops_before": draw(st.integers(1, k - 1)) if kind == "late-pairs+ops" and k >= 2 else k,
+        "reassemble": draw(st.sampled_from(["clear+assemble", "backport"])),
+    }
 
 
 def _far_away(draw, case, mode: str) -> None:
@@ -113,7 +132,8 @@ def edge_case(draw):
             "cells": cells, "orient": [draw(st.integers(0, 23)) for _ in cells]}
     _far_away(draw, case, "edge")
     case.update(pairs=pairs, patches=patches, merge_first=draw(st.booleans()),
-                order2=list(draw(st.permutations(list(range(k))))), jit=[], miss=[], mode="edge")
+                order2=list(draw(st.permutations(list(range(k))))), jit=[], miss=[], mode="edge",
+                history=_history(draw, k, len(pairs)))
     return case
 
 
@@ -160,6 +180,7 @@ def c05_case(draw, mode: str):
         jit=[],
         miss=[],
         mode=mode,
+        history=_history(draw, k, len(pairs)),
     )
     if mode == "tolerance":
         dims = case["dims"]
@@ -244,7 +265,10 @@ def corner_positions(case) -> Dict[Tuple[int, int], np.ndarray]:
     return out
 
 
-def build(case, order: List[int], chop: bool = False):
+def build(case, order: List[int], chop: bool = False, history: Any = None):
+    """history None: everything is declared, nothing assembled yet.  Otherwise the calls are made in the order the
+    history says (first assemble() with a prefix of the pairs / operations, the rest afterwards, re-assembly) and the
+    mesh is returned assembled; {"kind": "query-first"} only asks patch_list.is_slave() before the pairs are declared."""
     cpos = corner_positions(case)
     ops = []
     for oi, rot in enumerate(case["orient"]):
@@ -257,22 +281,46 @@ def build(case, order: List[int], chop: bool = False):
     for oi, g, name in case["patches"]:
         ops[oi].set_patch(xs.local_side_name(case["orient"][oi], g), name)
     mesh = cb.Mesh()
-    if case["merge_first"]:
-        for m, s in case["pairs"]:
-            mesh.merge_patches(m, s)
-    for oi in order:
+    kind = (history or {}).get("kind", "none")
+    if kind == "query-first":
+        mesh.patch_list.is_slave(history["query"])  # a pure query must not change what is assembled later
+    if kind in ("none", "query-first"):
+        if case["merge_first"]:
+            for m, s in case["pairs"]:
+                mesh.merge_patches(m, s)
+        for oi in order:
+            mesh.add(ops[oi])
+        if not case["merge_first"]:
+            for m, s in case["pairs"]:
+                mesh.merge_patches(m, s)
+        return mesh, cpos
+    nb, pb = history["ops_before"], history["pairs_before"]
+    for m, s in case["pairs"][:pb]:
+        mesh.merge_patches(m, s)
+    for oi in order[:nb]:
         mesh.add(ops[oi])
-    if not case["merge_first"]:
-        for m, s in case["pairs"]:
+    try:
+        mesh.assemble()
+        for oi in order[nb:]:
+            mesh.add(ops[oi])
+        for m, s in case["pairs"][pb:]:
             mesh.merge_patches(m, s)
+        if history["reassemble"] == "backport":
+            mesh.backport()
+        else:
+            mesh.clear()
+            mesh.assemble()
+    except Exception as ex:
+        raise Violation("assemble-failed", f"history {history}: {type(ex).__name__}: {ex}", **facts_of(case)) from None
     return mesh, cpos
 
 
-def assemble_ids(case, order: List[int]):
-    """vertex id of every (operation, corner) after Mesh.assemble() with the given insertion order"""
-    mesh, cpos = build(case, order)
+def assemble_ids(case, order: List[int], history: Any = None):
+    """vertex id of every (operation, corner) after the (last) Mesh.assemble() with the given insertion order"""
+    mesh, cpos = build(case, order, history=history)
     try:
-        mesh.assemble()
+        if not mesh.is_assembled:
+            mesh.assemble()
     except Exception as ex:
         raise Violation("assemble-failed", f"assemble raised {type(ex).__name__}: {ex}", **facts_of(case)) from None
     vid = {}
@@ -285,6 +333,7 @@ def assemble_ids(case, order: List[int]):
 
 def facts_of(case) -> Dict[str, Any]:
     return {"mode": case["mode"], "blocks": len(case["cells"]), "pairs": len(case["pairs"]),
+            "history": (case.get("history") or {}).get("kind", "none"),
             "jittered": bool(case["jit"]), "near_miss": bool(case["miss"])}
 
 
@@ -391,6 +440,18 @@ def label_case(case, ref: Ref, stats, ctx: Ctx) -> None:
     ctx.label(*lt.contact_labels(case))
 
 
+def label_history(case, ref: Ref, ctx: Ctx) -> None:
+    hist = case.get("history") or {"kind": "none"}
+    ctx.label("history:" + hist["kind"])
+    if hist["kind"].startswith("late-pairs"):
+        ctx.label("reassemble:" + hist["reassemble"])
+        late = {s for _, s in case["pairs"][hist["pairs_before"]:]}
+        if any(ref.patches[x] & late for x in ref.corners):
+            ctx.label("late-pair-has-slave-corners")
+        if hist["ops_before"] < len(case["cells"]):
+            ctx.label("operations-added-after-first-assembly")
+
+
 def check_assembly(case, ctx: Ctx) -> None:
     ref = Ref(case)
     order = list(range(len(case["cells"])))
@@ -398,22 +459,27 @@ def check_assembly(case, ctx: Ctx) -> None:
     stats = check_partition(case, ref, vid, ctx, "insertion order as listed")
     check_dense(case, mesh, vid, cpos)
     # every insertion order gives the same connectivity (also for the combinations that are not judged above)
+    # ... and so does every order of the declaring calls: the second run follows the drawn history (pairs / operations
+    # declared after a first assemble(), then clear()+assemble() or backport()); judged after its last assembly
     order2 = list(case["order2"])
-    mesh2, cpos2, vid2 = assemble_ids(case, order2)
-    check_partition(case, ref, vid2, ctx, f"insertion order {order2}")
+    hist = case.get("history") or {"kind": "none"}
+    mesh2, cpos2, vid2 = assemble_ids(case, order2, hist)
+    where = f"insertion order {order2}, history {hist}"
+    check_partition(case, ref, vid2, ctx, where)
     check_dense(case, mesh2, vid2, cpos2)
     if partition(vid) != partition(vid2):
-        raise Violation("order-dependent", f"connectivity differs between insertion orders {order} and {order2}",
+        raise Violation("order-dependent", f"connectivity differs between insertion order {order} (all declared first) and {where}",
                         **facts_of(case))
     if order2 != order:
         ctx.label("second-order-differs")
+    label_history(case, ref, ctx)
     label_case(case, ref, stats, ctx)
 
 
 def check_file(case, ctx: Ctx) -> None:
     ref = Ref(case)
     order = list(case["order2"])
-    mesh, cpos = build(case, order, chop=True)
+    mesh, cpos = build(case, order, chop=True, history=case.get("history"))
     try:
         text, _ = lt.write_text(mesh)
     except Exception as ex:
@@ -450,6 +516,7 @@ def check_file(case, ctx: Ctx) -> None:
         if d > half:
             raise Violation("list-order", f"vertex {i} of the file is {d:g} away from vertex {i} of the mesh", **f)
     stats = check_partition(case, ref, vid, ctx, "written file")
+    label_history(case, ref, ctx)
     label_case(case, ref, stats, ctx)
 
 
